@@ -508,7 +508,9 @@ where R: LLLRing, for<'x> &'x R: LLLRingOps<R> {
     let mut d = vec![R::one(); m];
     let mut l = DMatrix::zeros(m, m);
 
-    d[0] = h_dot(c.row(0), c.row(0));
+    if m > 0 { 
+        d[0] = h_dot(c.row(0), c.row(0));
+    }
 
     for i in 1..m { 
         for j in 0..i { 
